@@ -64,7 +64,7 @@ Proof.
   - exfalso. unfold set_recommended_port_state in E. rewrite Hso in E.
     destruct Hr as [-> | ->];
       (destruct (p_multiport_disable (bp_port b));
-       [ destruct (is_passive (p_state (bp_port b))); [discriminate|];
+       [ destruct (is_passive (p_state (bp_port b)) || is_faulty (p_state (bp_port b))); [discriminate|];
          destruct (set_forced (bp_port b) PPassive); discriminate
        | destruct (p_state (bp_port b)); try discriminate;
          destruct (set_forced (bp_port b) PMaster); discriminate ]).
